@@ -297,8 +297,8 @@ func Check[C any](t *testing.T, p Prop[C]) {
 
 func oneLine(s string) string {
 	s = strings.ReplaceAll(s, "\n", " | ")
-	if len(s) > 600 {
-		s = s[:600] + "..."
+	if len(s) > 4000 {
+		s = s[:4000] + "..."
 	}
 	return s
 }
